@@ -50,6 +50,8 @@ pub const TYPE_DECLS: &str = "type En = Aa | Bb(bool) | Cc(bool, bool) | Dd(x: b
 type St = {\n  a: bool\n  b: bool\n}\n\
 type Sv = {\n  a: bool\n  u: void\n}\n\
 type Bx<T> = {\n  v: T\n}\n\
+type Dw<T> = {\n  v: option<option<T>>\n}\n\
+type Stt = {\n  a: bool\n  b: bool\n  c: bool\n}\n\
 type Se = {\n  a: bool\n  e: En\n}\n";
 
 impl Ty {
@@ -135,6 +137,23 @@ pub fn t_bx(inner: Ty) -> Ty {
         texpr: format!("Bx<{}>", inner.texpr()),
         id: format!("bx_{}", inner.id()),
         fields: vec![("v".into(), inner)],
+    }))
+}
+/// a generic struct whose type parameter sits two constructors deep
+pub fn t_dw(inner: Ty) -> Ty {
+    Ty::Struct(Rc::new(SDef {
+        name: "Dw".into(),
+        texpr: format!("Dw<{}>", inner.texpr()),
+        id: format!("dw_{}", inner.id()),
+        fields: vec![("v".into(), t_opt(t_opt(inner)))],
+    }))
+}
+pub fn t_s3() -> Ty {
+    Ty::Struct(Rc::new(SDef {
+        name: "Stt".into(),
+        texpr: "Stt".into(),
+        id: "s3".into(),
+        fields: vec![("a".into(), Ty::Bool), ("b".into(), Ty::Bool), ("c".into(), Ty::Bool)],
     }))
 }
 pub fn t_se() -> Ty {
@@ -562,7 +581,7 @@ pub fn universe() -> Vec<TyU> {
         groups: vec![],
     });
 
-    // 3 float: `1.0` and `1.00` denote the same value
+    // 3 float: `1.0` and `1.00` denote the same value, and so do `2.0`, `02.0` and `2.00000000000000000001`
     u.push(TyU {
         ty: Ty::Float,
         pats: vec![
@@ -572,6 +591,9 @@ pub fn universe() -> Vec<TyU> {
             Pat::Float("1.00"),
             Pat::Float("2.0"),
             Pat::Float("0.0"),
+            // other spellings of 2.0: a leading zero, digits beyond binary64 precision
+            Pat::Float("02.0"),
+            Pat::Float("2.00000000000000000001"),
             or(Pat::Float("1.0"), Pat::Float("2.0")),
             or(Pat::Float("1.00"), Pat::Float("1.0")),
         ],
@@ -813,6 +835,37 @@ pub fn universe() -> Vec<TyU> {
         p.push(bx(q));
     }
     u.push(TyU { ty: t_bx(t_st()), pats: p, len: (2, 3), ctx_len: (0, 0), groups: vec![] });
+
+    // 21 Dw<bool> = { v: option<option<T>> }: the type parameter of a user generic sits two constructors deep
+    let dw = |q: Pat| Pat::Struct(Form::Pos, vec![q]);
+    let p = vec![
+        w.clone(),
+        bind("v"),
+        dw(w.clone()),
+        dw(none()),
+        dw(some(none())),
+        dw(some(w.clone())),
+        dw(some(some(w.clone()))),
+        dw(some(some(t.clone()))),
+        dw(some(some(f.clone()))),
+        dw(some(some(bind("v0")))),
+    ];
+    u.push(TyU { ty: t_dw(Ty::Bool), pats: p, len: (3, 4), ctx_len: (0, 0), groups: vec![] });
+
+    // 22 Stt { a, b, c }: three fields, so that a named pattern written in reverse order keeps one name in its place
+    let mut p = vec![w.clone(), bind("v")];
+    for form in [Form::Pos, Form::Named, Form::NamedRev] {
+        for fs in [
+            vec![t.clone(), w.clone(), f.clone()],
+            vec![f.clone(), t.clone(), w.clone()],
+            vec![bind("v0"), t.clone(), bind("v2")],
+            vec![t.clone(), bind("v1"), w.clone()],
+            vec![w.clone(), w.clone(), t.clone()],
+        ] {
+            p.push(Pat::Struct(form, fs));
+        }
+    }
+    u.push(TyU { ty: t_s3(), pats: p, len: (2, 2), ctx_len: (0, 0), groups: vec![] });
 
     u
 }
